@@ -1,4 +1,8 @@
 import PynProofs.Restrict
+import PynModel.Core.Series
+import PynProps.C02
+import PynProps.C04
+import PynProps.C12
 /-!
 # C03 — restrict keeps exactly the samples inside the closed intervals, rows intact
 
@@ -9,6 +13,12 @@ Model: `Pyn.jitrestrict` (index-level transliteration of `jitrestrict`, one func
 The kernel returns the *index vector* `ix`; `_Base.restrict` takes `time_array[ix]` and
 `values[ix]` with that same vector, so "each with its own data row" is the statement that one
 vector is used for both (checked by the correspondence run on tagged rows).
+
+Second half of the file — the clauses about VALUES: `restrict_eq_filter` (the index vector is the filter of
+`0..n-1` by "lies in a closed interval"), `restrictT_eq` (restricted timestamps = original timestamps filtered,
+same order and multiplicity), `restrict_idem`, `restrict_then`, `restrict_comp` (restricting by a then b = by
+a.intersect(b) for samples farther than 1 µs from every endpoint; uses C02's end-to-end intersect theorem) and
+`new_support_eq_restrict` (constructing with `time_support = ep` = constructing without, then restricting).
 -/
 namespace Pyn.C03
 open Pyn
@@ -91,5 +101,189 @@ example : Canon #[1, 6] #[2, 9] rfl := by
 example : jitrestrict #[10] #[0] #[1] rfl = #[] := by decide +kernel
 example : jitrestrict #[] #[0] #[1] rfl = #[] := by decide +kernel
 example : jitrestrict #[1] #[] #[] rfl = #[] := by decide +kernel
+
+
+/-! ## values: restrict is the filter; idempotence, composition, constructor -/
+
+/-- two strictly increasing lists with the same elements are equal -/
+theorem eq_of_sorted_of_mem (l1 l2 : List Nat) (h1 : l1.Pairwise (· < ·)) (h2 : l2.Pairwise (· < ·))
+    (hm : ∀ a, a ∈ l1 ↔ a ∈ l2) : l1 = l2 := by
+  induction l1 generalizing l2 with
+  | nil =>
+    cases l2 with
+    | nil => rfl
+    | cons b t => exact absurd ((hm b).2 (List.mem_cons_self ..)) (by simp)
+  | cons a t ih =>
+    cases l2 with
+    | nil => exact absurd ((hm a).1 (List.mem_cons_self ..)) (by simp)
+    | cons b u =>
+      rw [List.pairwise_cons] at h1 h2
+      have hab : a = b := by
+        have ha := (hm a).1 (List.mem_cons_self ..)
+        have hb := (hm b).2 (List.mem_cons_self ..)
+        rcases List.mem_cons.1 ha with e | e
+        · exact e
+        · rcases List.mem_cons.1 hb with e' | e'
+          · exact e'.symm
+          · have := h2.1 a e; have := h1.1 b e'; omega
+      subst hab
+      congr 1
+      apply ih u h1.2 h2.2
+      intro c
+      constructor
+      · intro hc
+        have := (hm c).1 (List.mem_cons_of_mem _ hc)
+        rcases List.mem_cons.1 this with e | e
+        · subst e; have := h1.1 c hc; omega
+        · exact e
+      · intro hc
+        have := (hm c).2 (List.mem_cons_of_mem _ hc)
+        rcases List.mem_cons.1 this with e | e
+        · subst e; have := h2.1 c hc; omega
+        · exact e
+
+theorem inIvB_iff (st en : Array Int) (hm : st.size = en.size) (x : Int) : inIvB st en x = true ↔ InIv st en hm x := by
+  unfold inIvB InIv
+  simp only [List.any_eq_true, List.mem_range, Bool.and_eq_true, decide_eq_true_eq]
+  constructor
+  · rintro ⟨k, hk, a, b⟩
+    refine ⟨k, hk, ?_, ?_⟩
+    · simpa [hk] using a
+    · have : k < en.size := by omega
+      simpa [this] using b
+  · rintro ⟨k, hk, a, b⟩
+    refine ⟨k, hk, ?_, ?_⟩
+    · simpa [hk] using a
+    · have : k < en.size := by omega
+      simpa [this] using b
+
+/-- **restrict is the filter**: for non-decreasing timestamps and a canonical set, the indices returned are exactly
+the positions of the samples lying in a closed interval, in increasing order, each once -/
+theorem restrict_eq_filter (ts st en : Array Int) (hm : st.size = en.size) (hs : Sorted ts) (hc : Canon st en hm) :
+    (jitrestrict ts st en hm).toList = (List.range ts.size).filter (fun i => inIvB st en ts[i]!) := by
+  apply eq_of_sorted_of_mem
+  · exact restrict_ordered ts st en hm
+  · exact List.Pairwise.filter _ (List.pairwise_lt_range)
+  · intro i
+    rw [List.mem_filter, List.mem_range, inIvB_iff st en hm, ← Array.mem_def, restrict_selects ts st en hm hs hc i]
+    constructor
+    · rintro ⟨hi, k, hk, a, b⟩
+      refine ⟨hi, k, hk, ?_, ?_⟩ <;> simpa [hi] using ‹_›
+    · rintro ⟨hi, k, hk, a, b⟩
+      refine ⟨hi, k, hk, ?_, ?_⟩
+      · simpa [hi] using a
+      · simpa [hi] using b
+
+theorem toList_eq_range_map (ts : Array Int) : ts.toList = (List.range ts.size).map (ts[·]!) := by
+  apply List.ext_getElem
+  · simp
+  · intro i h1 h2
+    simp at h1 h2 ⊢
+    simp [h1]
+
+theorem gather_filter (ts : Array Int) (p : Int → Bool) :
+    ((List.range ts.size).filter (fun i => p ts[i]!)).map (ts[·]!) = ts.toList.filter p := by
+  conv => rhs; rw [toList_eq_range_map ts, List.filter_map]
+  rfl
+
+/-- timestamps of `x.restrict(ep)` at the kernel level -/
+def restrictT (ts st en : Array Int) (hm : st.size = en.size) : Array Int := gatherI ts (jitrestrict ts st en hm)
+
+/-- **C03, first clause, as an equation**: the restricted timestamps are the original timestamps filtered by
+"lies in a closed interval of ep" — same order, same multiplicity (duplicates kept or dropped together) -/
+theorem restrictT_eq (ts st en : Array Int) (hm : st.size = en.size) (hs : Sorted ts) (hc : Canon st en hm) :
+    (restrictT ts st en hm).toList = ts.toList.filter (inIvB st en) := by
+  unfold restrictT gatherI
+  rw [Array.toList_map, restrict_eq_filter ts st en hm hs hc, gather_filter]
+
+/-- each kept sample keeps its own data row: timestamps and rows are gathered with the same index array -/
+theorem restrict_rows_paired (ts : Array Int) (rows : Array Nat) (ix : Array Nat) (k : Nat) (hk : k < ix.size) :
+    (gatherI ts ix)[k]'(by simpa [gatherI] using hk) = ts[ix[k]]! ∧
+    (gatherN rows ix)[k]'(by simpa [gatherN] using hk) = rows[ix[k]]! := by
+  simp [gatherI, gatherN]
+
+theorem sorted_iff_pairwise (ts : Array Int) : Sorted ts ↔ ts.toList.Pairwise (· ≤ ·) := by
+  constructor
+  · intro h
+    rw [List.pairwise_iff_getElem]
+    intro i j hi hj hij
+    simpa using h i j (by simpa using hi) (by simpa using hj) (Nat.le_of_lt hij)
+  · intro h i j hi hj hij
+    rcases Nat.eq_or_lt_of_le hij with e | e
+    · subst e; exact Int.le_refl _
+    · have := (List.pairwise_iff_getElem.1 h) i j (by simpa using hi) (by simpa using hj) e
+      simpa using this
+
+theorem restrictT_sorted (ts st en : Array Int) (hm : st.size = en.size) (hs : Sorted ts) (hc : Canon st en hm) :
+    Sorted (restrictT ts st en hm) := by
+  rw [sorted_iff_pairwise, restrictT_eq ts st en hm hs hc]
+  exact List.Pairwise.filter _ ((sorted_iff_pairwise ts).1 hs)
+
+/-- **restricting again by the same set changes nothing** -/
+theorem restrict_idem (ts st en : Array Int) (hm : st.size = en.size) (hs : Sorted ts) (hc : Canon st en hm) :
+    restrictT (restrictT ts st en hm) st en hm = restrictT ts st en hm := by
+  apply Array.ext'
+  rw [restrictT_eq _ st en hm (restrictT_sorted ts st en hm hs hc) hc, restrictT_eq ts st en hm hs hc,
+    List.filter_filter]
+  congr 1; funext x; simp
+
+/-- **restricting by a then by b** keeps exactly the samples lying in both -/
+theorem restrict_then (ts s1 e1 s2 e2 : Array Int) (h1 : s1.size = e1.size) (h2 : s2.size = e2.size) (hs : Sorted ts)
+    (hcA : Canon s1 e1 h1) (hcB : Canon s2 e2 h2) :
+    (restrictT (restrictT ts s1 e1 h1) s2 e2 h2).toList = ts.toList.filter (fun x => inIvB s1 e1 x && inIvB s2 e2 x) := by
+  rw [restrictT_eq _ s2 e2 h2 (restrictT_sorted ts s1 e1 h1 hs hcA) hcB, restrictT_eq ts s1 e1 h1 hs hcA,
+    List.filter_filter]
+  congr 1; funext x; exact Bool.and_comm _ _
+
+/-- **restricting by a then by b selects the same samples as restricting by a.intersect(b)** — for series whose
+samples are farther than 1 µs from every endpoint of a and b (the C03 side condition) -/
+theorem restrict_comp (ts : Array Int) (a b : Array (Int × Int)) (hs : Sorted ts)
+    (hca : C01.CanonicalPairs a) (hcb : C01.CanonicalPairs b)
+    (hfar : ∀ x ∈ ts.toList, C02.FarEnds (pairsSt a) (pairsEn a) (pairsSt b) (pairsEn b) x) :
+    (restrictT (restrictT ts (pairsSt a) (pairsEn a) (pairs_size a)) (pairsSt b) (pairsEn b) (pairs_size b)).toList =
+    (restrictT ts (pairsSt (ISet.intersect a b)) (pairsEn (ISet.intersect a b)) (pairs_size _)).toList := by
+  have ca := C04.canon_of_canonicalPairs a hca
+  have cb := C04.canon_of_canonicalPairs b hcb
+  have ci := C04.canon_of_canonicalPairs _ (C01.intersect_canonical a b)
+  rw [restrict_then ts _ _ _ _ _ _ hs ca cb, restrictT_eq ts _ _ _ hs ci]
+  apply List.filter_congr
+  intro x hx
+  have key := C02.ISet_intersect_pointwise a b ca cb x (hfar x hx)
+  rw [← C02.inIv_pairs, ← C02.inIv_pairs a, ← C02.inIv_pairs b, ← inIvB_iff, ← inIvB_iff, ← inIvB_iff] at key
+  cases h1 : inIvB (pairsSt a) (pairsEn a) x <;> cases h2 : inIvB (pairsSt b) (pairsEn b) x <;>
+    cases h3 : inIvB (pairsSt (ISet.intersect a b)) (pairsEn (ISet.intersect a b)) x <;> simp_all
+
+/-- timestamps of the series constructor given `time_support = p` -/
+theorem new_some_t (t : Array Int) (rows : Array Nat) (p : Array (Int × Int)) :
+    (Series.new t rows (some p)).t = restrictT (sortArr t) (pairsSt p) (pairsEn p) (pairs_size p) := by
+  unfold Series.new restrictT
+  by_cases h0 : (sortArr t).size = 0
+  · simp only [h0, if_true]
+    have : sortArr t = #[] := Array.eq_empty_of_size_eq_zero h0
+    rw [this]
+    have hz : (jitrestrict #[] (pairsSt p) (pairsEn p) (pairs_size p)).size ≤ 0 := by
+      simpa using (restrict_in_bounds #[] (pairsSt p) (pairsEn p) (pairs_size p)).2
+    simp [gatherI, Array.eq_empty_of_size_eq_zero (Nat.le_zero.1 hz)]
+  · simp [h0]
+
+/-- **constructing with `time_support = ep` selects the same samples as constructing without and then restricting** -/
+theorem new_support_eq_restrict (t : Array Int) (rows : Array Nat) (p : Array (Int × Int)) (hp : C01.CanonicalPairs p) :
+    (Series.new t rows (some p)).t = ((Series.new t rows none).restrictTo p).t := by
+  have cp := C04.canon_of_canonicalPairs p hp
+  have hs := C01.sortArr_sorted t
+  unfold Series.restrictTo
+  simp only [new_some_t]
+  have e0 : sortArr (Series.new t rows none).t = sortArr t := by
+    unfold Series.new
+    by_cases h0 : (sortArr t).size = 0
+    · simp only [h0, if_true]
+      rw [Array.eq_empty_of_size_eq_zero h0]; rfl
+    · simp only [h0, if_false]
+      exact C12.sortArr_of_sorted _ hs
+  rw [e0, C12.sortArr_of_sorted _ (restrictT_sorted _ _ _ _ hs cp), restrict_idem _ _ _ _ hs cp]
+
+
+-- non-vacuity: a sorted series with duplicates and samples on interval ends, a canonical two-interval set
+example : (restrictT #[0, 1, 1, 2, 5, 7, 9] #[1, 6] #[2, 7] rfl).toList = [1, 1, 2, 7] := by decide +kernel
 
 end Pyn.C03
